@@ -148,7 +148,9 @@ func c09Run(c *fw.Ctx) {
 			rt := []string{"idp-refresh-token", ""}[x.Choose("refresh-token", 2)]
 			// (the last: the listed address / domain with its 's' written as U+017F, which Unicode case folding —
 			// but not lower-casing — equates with 's')
-			em := []string{"bob@corp.test", "mallory@other.test", "bob@evilcorp.test", "notbob@corp.test", "bob@corp.te\u017ft", "bob@corp.test@evil.test"}[x.Choose("email", 6)]
+			em := []string{"bob@corp.test", "mallory@other.test", "bob@evilcorp.test", "notbob@corp.test", "bob@corp.te\u017ft", "bob@corp.test@evil.test",
+				// the listed domain with its dot replaced by another character
+				"bob@corp-test", "bob@corpxtest"}[x.Choose("email", 8)]
 			pick := func(b int) time.Time {
 				if b == 0 {
 					return future
